@@ -20,6 +20,17 @@ from .common import SPEC, MachineryError
 JAR = "/opt/veriftools/tla/tla2tools.jar:/opt/veriftools/tla/CommunityModules-deps.jar"
 
 
+def _die_with_parent():
+    """The JVM gets SIGKILL when the checking process dies (a killed check must not leave a model checker running)."""
+    try:
+        import ctypes
+        import signal
+
+        ctypes.CDLL("libc.so.6", use_errno=True).prctl(1, signal.SIGKILL)  # PR_SET_PDEATHSIG
+    except Exception:  # noqa: BLE001 - best effort
+        pass
+
+
 class TLCResult:
     def __init__(self):
         self.module = ""
@@ -145,7 +156,7 @@ def run(
             e.update({k: str(v) for k, v in env.items()})
         t0 = time.time()
         try:
-            p = subprocess.run(args, cwd=work, env=e, capture_output=True, text=True, timeout=timeout)
+            p = subprocess.run(args, cwd=work, env=e, capture_output=True, text=True, timeout=timeout, preexec_fn=_die_with_parent)
             out = p.stdout + "\n" + p.stderr
             res.rc = p.returncode
         except subprocess.TimeoutExpired as te:
